@@ -3,7 +3,19 @@ model-checked exhaustively (the repaired algorithm conforms to the contract, red
 the comparison region; the three pinned rules are named deviations and violate them); plans
 simulated from the spec and seeded boundary-biased histories are executed on the real in-memory
 cache, on the redis-backed cache over a fake server and by racing goroutines under a virtual
-clock; every recorded reply must be explained by the contract (TTL_Trace)."""
+clock; every recorded reply must be explained by the contract (TTL_Trace).
+
+Hardening (generic): returned value slices are kept as returned and rendered when the history is
+over in half of the histories, every slice handed to Set is compared with a private copy (`inmut`,
+`end` event); configuration extremes (size 2^31..MaxInt, ttl -2^63..2^62, empty key / empty value /
+70 kB values / exotic key bytes, empty redis prefix) carried as clamped numbers; a decoy cache of the
+same kind (same key names, other redis prefix) is used by the same caller between the judged calls;
+every call runs under a watchdog and a call that never returns is a `stuck` observation (rejected),
+a panic is a reply the contract cannot explain, a command the fake server lacks is exit 2; failures
+are inputs on the redis-backed cache (server error on the call's first command, caller context
+cancelled / past its deadline, also for racing callers): failure reply, no effect; in-memory races
+include every call of the interface (Clear of a filled cache against readers) and cold-start rounds
+on a fresh cache."""
 
 
 def run(ctx):
@@ -26,7 +38,7 @@ def run(ctx):
     files = [ctx.path("mem.ndjson"), ctx.path("both.ndjson"), ctx.path("conc.ndjson")]
     ctx.harness(binary, ["-plans", pdir, "-plansr", rdir, "-out", files[0], "-both", files[1],
                          "-conc", files[2], "-seed", ctx.seed, "-hist", ctx.q(250, 4000),
-                         "-nboth", ctx.q(150, 2500), "-nconc", ctx.q(80, 1000), "-nrconc", ctx.q(80, 1000), "-nrds", ctx.q(70, 1200), "-ncold", ctx.q(120, 2500),
+                         "-nboth", ctx.q(150, 2500), "-nconc", ctx.q(80, 1000), "-nrconc", ctx.q(80, 1000), "-nrds", ctx.q(70, 800), "-ncold", ctx.q(120, 1500),
                          "-maxops", ctx.q(60, 120)], traces=files)
     # 4. validate what the real code did
     mem = ctx.load_traces(files[0])
@@ -50,6 +62,12 @@ def run(ctx):
         "own last touch (failed must-not-exist Sets and consuming reads count as touches of the other "
         "key) or while the clock stands exactly on its deadline",
         "concurrent histories: inv/res logged outside the cache lock; TLC searches for a linearization",
+        "numbers beyond +-10^9 (sizes, ttls) are logged clamped to +-10^9: clocks stay below 2*10^6 and key "
+        "counts below 100, so the contract cannot tell the difference; ttls whose deadline now+ttl would "
+        "overflow int64 (and, on redis, ttls beyond time.Duration's 292 years) are not generated",
+        "injected failures: the fake refuses the call's FIRST command (or the caller's context has ended); "
+        "the call must then report a failure (Clear has no result) and change nothing - what a failure of a "
+        "later command (EXPIRE after GET, DEL in the middle of Clear) leaves behind is left open",
         "redis-backed races: every command reaching the fake server is a gate; the driver serves the parked "
         "callers' commands one at a time in a seeded order (commands atomic, interleaving controlled); "
         "no update-ttl in these programs (Get+Expire is not atomic by design), clock far from deadlines",
@@ -58,7 +76,9 @@ def run(ctx):
         rule="plans = TLC simulation of TTL.tla (4 keys, size 0..3, ttl {<=0,1,2,4}, ticks 1..2, fresh value "
              "per Set, every plan ends with a probe of all keys; region plans with size >= keys); histories = "
              "seeded random over 2..12 keys, size 0..9, default ttl -3..8, option ttl -3..9, ticks aimed at "
-             "deadline-1/deadline/deadline+1; a trace is one cache lifetime",
+             "deadline-1/deadline/deadline+1; extremes of size/ttl/keys/values; redis-only region histories "
+             "with injected failures; mem races, cold-start races and scheduled redis races; a trace is one "
+             "cache lifetime ending with an `end` observation",
         explanation="every reply (ok/exists/hit+value/miss) of Set/Get/Remove/Clear/probe recorded from the "
                     "real caches under the virtual clock must keep the set of compatible contract states of "
                     "TTL.tla non-empty; mem+redis traces additionally require equal replies")
